@@ -538,6 +538,18 @@ def _event(it):
     return SExt('event', dict(ops=SList([])))
 
 
+import socket as _socket_mod
+
+
+@model(_socket_mod.socket)
+def _socket_new(it, *a, **k):
+    """Assumed: socket.socket() returns a fresh stream socket -- not connected, not closed, nothing
+    sent; once connected, what the peer sends is an arbitrary byte stream (ghost `data`)."""
+    from .ext import SExt, _fresh_bytes_seq
+    return SExt('socket', dict(data=_fresh_bytes_seq(it, 'peer_data'), pos=0, sent=SList([]),
+                               closed=False, connected=False))
+
+
 @model(_queue.Queue)
 def _queue_new(it, *a):
     from .ext import SExt
@@ -568,7 +580,12 @@ def _json_dumps(it, obj, indent=None, **kw):
     if kw or indent is not None:
         raise EngineError('json.dumps options other than indent=None')
     if all_native([obj]):
-        return json.dumps(obj, indent=None)
+        try:
+            return json.dumps(obj, indent=None)
+        except (TypeError, ValueError) as e:
+            # a value that is not JSON-able: the real json.dumps raises, before any output
+            from .interp import PyRaise
+            raise PyRaise(type(e), (str(e),))
     return JDump(obj)
 
 
